@@ -101,6 +101,29 @@ CHECKS = {
              "in tools/props/c05.py, the harness' walk over Bodies.",
         technique="TLA+ static semantics (TLC enumeration) + spec-to-implementation replay",
         ref="DESIGN.md section 4 C05"),
+    "C06": dict(
+        engine="Pipeline",
+        category="model_checking",
+        text="Pipeline.tla is the stage machine of one compilation; the events panic, abort / "
+             "signal, time-out, Cranelift error, link failure, a diagnostic that cannot be "
+             "rendered and exit-without-diagnostics exist in the trace vocabulary but no action "
+             "enables them, so a recorded compilation containing one is not a behaviour of the "
+             "specification. Every input is compiled in its own process (per-stage catch_unwind, "
+             "wall-clock limit, every diagnostic rendered in both colour modes) and its stage "
+             "trace is validated by TracePipeline.tla. Inputs: every corpus program (examples, "
+             "core users, sources embedded in the hir_ty / codegen tests), their token- and "
+             "byte-level mutants, token soups, random Unicode, depth-200 nesting, a 64 KiB input, "
+             "and the witnesses of every recorded finding and repaired defect (tools/c06_inputs).",
+        note="quick: 2 232 inputs; thorough: 34 000. A time-out is re-run alone with four times "
+             "the limit before it counts. 22 known findings (panic sites of the front end / type "
+             "checker on malformed input, three back-end failures on accepted programs), each "
+             "identified by event + innermost function of the code under test + normalised "
+             "message, each with a witness input; a panic at any other site, any signal, hang, "
+             "verifier / link error is a violation. The spec is a small stage machine and the "
+             "exploration is generator-driven (DESIGN.md section 7). Trusted: TLC, the harness' "
+             "staging of main.rs through the library API.",
+        technique="TLA+ stage machine (forbidden events) + trace validation of recorded compilations",
+        ref="DESIGN.md section 4 C06"),
     "C07": dict(
         engine="Pipeline",
         category="model_checking",
